@@ -292,7 +292,7 @@ def fix_retries(c, tr):
 
 
 def generate(rnd, tier):
-    n = {"quick": 320, "thorough": 5000, "search": 500}[tier]
+    n = {"quick": 320, "thorough": 5000, "search": 150}[tier]
     cases = []
     for i in range(n):
         role = rnd.choice(["cli", "srv"])
@@ -309,11 +309,71 @@ def generate(rnd, tier):
 
 # ---------------------------------------------------------------------------------------------------------------
 PENDING_KEY = "pending-data:SocketTlsImpl.DriverPending"
+IDLE_KEY = "idle-client:SocketTlsImpl.DriverQuery"
+
+
+def hs_next(p, bio_r, bio_w):
+    """kind of the handshake step that is due ('R' / 'W'), None when the handshake is complete"""
+    if p["peer"] != "tls":
+        return None
+    steps = [("W", CH), ("R", SF), ("W", CF)] if p["role"] == "cli" else [("R", CH), ("W", SF), ("R", CF), ("W", ST)]
+    r, w = bio_r, bio_w
+    for kind, n in steps:
+        if kind == "R":
+            if r >= n:
+                r -= n
+            else:
+                return "R"
+        else:
+            if w >= n:
+                w -= n
+            else:
+                return "W"
+    return None
+
+
+def stalled(c, tr):
+    """the driver keeps polling WITHOUT asking for writability although the handshake owes the peer a flight: returns
+    (number of such idle polls, engine calls so far) at the first time there are three in a row, else None"""
+    p = plan_of(c)
+    fd = tls_fd(tr)
+    if fd is None or p["level"] != "async":
+        return None
+    bio_r = bio_w = calls = 0
+    idle = 0
+    init = False
+    for k, a in tr:
+        if k == 41 and a[2] > 0:
+            if a[0] == 1:
+                bio_r += a[2]
+            else:
+                bio_w += a[2]
+            idle = 0
+        elif k == 42:
+            calls += 1
+            if a[0] == 3:
+                return None                      # the socket is being destroyed
+        elif k == 40 and a[3] in (E_SSL, E_SYSCALL, E_ZERO):
+            return None                          # the engine gave up on this connection
+        elif k == 40 and a[4] == 1:
+            init = True
+        elif k == 2 and len(a) > 5:
+            fds = [(a[i], a[i + 1]) for i in range(3, len(a) - 1, 2)]
+            ev = next((e for f, e in fds if f == fd), None)
+            if ev is not None and a[1] == 0 and not (ev & POLLOUT) and not init and hs_next(p, bio_r, bio_w) == "W":
+                idle += 1
+                if idle >= 3:
+                    return idle, calls
+    return None
 
 
 def finding_key(c, ti, why):
     if ti and any(k == 20 and a[0] in (41, 42) and a[1] == 0 and a[2:4] == [4, 8] for k, a in ti):
         return PENDING_KEY
+    if ti and plan_of(c):
+        st = stalled(c, ti)
+        if st and st[1] == 0 and plan_of(c)["role"] == "cli":
+            return IDLE_KEY
     return None
 
 
@@ -323,7 +383,7 @@ def monitor(c, tr):
     p = plan_of(c)
     if p is None:
         return None
-    if finding_key(c, tr, ""):
+    if finding_key(c, tr, "") == PENDING_KEY:
         return PENDING_KEY + " application data that arrives together with the end of the handshake is read and dropped by DriverPending(), std::logic_error escapes from Step/Run"
     for k, a in tr:
         if k == 98:
@@ -344,6 +404,12 @@ def monitor(c, tr):
     fd = tls_fd(tr)
     if fd is None:
         return None
+    st = stalled(c, tr)
+    if st:
+        if st[1] == 0 and p["role"] == "cli":
+            return IDLE_KEY + " an asynchronous TLS client that has nothing queued for sending never starts the handshake: the driver polls for POLLIN only, the ClientHello is never written"
+        return ("the handshake can never complete: it owes the peer a flight, but the driver polled %d times without asking for writability "
+                "(the socket's write interest was lost)" % st[0])
     init = False
     fatal_seen = False
     steps_after_ready = 0
@@ -427,14 +493,18 @@ def project(tr):
 
 def corpus():
     import os
-    f = os.path.join(VERIF, "corpus", "C18_pending_data.txt")
-    return parse_cases(open(f).read()) if os.path.exists(f) else []
+    out = []
+    for name in ("C18_pending_data.txt", "C18_idle_client.txt"):
+        f = os.path.join(VERIF, "corpus", name)
+        if os.path.exists(f):
+            out += parse_cases(open(f).read())
+    return out
 
 
 SPEC = {
     "id": "C18", "corpus": corpus, "module": "Properties_C18", "theorems": THEOREMS, "harness": "simtls", "flavour": "tlssan",
     "generate": generate, "project": project, "nontrivial_key": nontrivial_key, "monitor": monitor,
-    "distribution": distribution, "chooser": kernel, "search_rounds": 3, "finding_key": finding_key,
+    "distribution": distribution, "chooser": kernel, "search_rounds": 2, "finding_key": finding_key,
     "rule": "one TLS socket per case in client or server (accepted) role, basic / buffered / asynchronous API, every timeout mode and order of first Send/Receive; the scripted engine "
             "plays a TLS-1.3 endpoint (flights 120/900/60/260 bytes, records with 22 bytes overhead, close_notify), the virtual peer answers each flight once ours is on the wire, "
             "may be a non-TLS peer, may close, sends 0-3000 bytes in records of 7-16384; the kernel delivers records in segments of 1..5000 bytes, is 'not writable' at 0-60% of the "
@@ -446,4 +516,6 @@ SPEC = {
 
 
 def main(tier, seed, replay=None):
+    # the sanitizer build is ~10x slower under the adaptive script growth: thorough tier only
+    SPEC["flavour"] = "tlssan" if tier == "thorough" else "tls"
     return run_sim_check(SPEC, tier, seed, replay)
